@@ -245,6 +245,33 @@ func (c35Store) SetupAux(aux string) error {
 }
 func (c35Store) Structural(string, Model) error { return nil }
 
+func (c35Store) Valid(mm Model, s Step) bool {
+	m := mm.(*c35Model)
+	var a c35Args
+	json.Unmarshal(s.Args, &a)
+	switch s.Op {
+	case "att-add":
+		for _, n := range a.List {
+			if _, ok := m.Att[n]; ok {
+				return false
+			}
+		}
+	case "att-remove":
+		present := 0
+		for _, n := range a.List {
+			if _, ok := m.Att[n]; ok {
+				present++
+			}
+		}
+		return present == 0 || present == len(a.List)
+	case "kw-remove":
+		return len(a.List) > 0 || len(m.KW) > 0
+	case "prop-remove":
+		return len(a.List) > 0 || len(m.Props) > 0
+	}
+	return true
+}
+
 func dsConf() *model.Configuration { return model.NewDefaultConfiguration() }
 
 func (s c35Store) observeModel(path string) (*c35Model, error) {
